@@ -429,7 +429,7 @@ func jsonrtCorpus(c *Ctx, all []*rtTarget, cfg jsonrtCfg) {
 }
 
 func famJsonrt(c *Ctx) {
-	cfg := jsonrtCfg{emitC: false}
+	cfg := jsonrtCfg{emitC: true}
 	nrnd := c.N / 40
 	if nrnd < 4 {
 		nrnd = 4
